@@ -67,7 +67,7 @@ def post(cov, cases, recs):
 
 def run(tier, seed):
     return tracecheck.run(PID, tier, seed, {}, oracle, n_quick=150, n_thorough=3000, shrink_budget=4, variants=variants, casegen=casegen, post=post,
-                          require_props=False, mask=1 | 2 | 4 | 8)
+                          require_props=False, level="translation_validation", mask=1 | 2 | 4 | 8)
 
 
 def replay(payload):
